@@ -279,6 +279,19 @@ func TestVerifC15(t *testing.T) {
 		} else if g, _ := toRef(recv); !g.Eq(P) {
 			r.Violation("setbytes-roundtrip-wrong", d)
 		}
+		// the results belong to the caller: it overwrites them (a buffer reused for the next message, a big.Int used as an
+		// accumulator); encodings handed out LATER - of this point and of every other one - must not show it
+		for j := range safe {
+			safe[j] ^= 0xff
+		}
+		for j := range fast {
+			fast[j] ^= 0x5a
+		}
+		ax.SetInt64(-7)
+		axu.Lsh(axu, 3).Add(axu, bi(1))
+		if !bytes.Equal(p.Bytes(), want) || !bytes.Equal(p.Bytes_Unsafe(), want) || p.GetAffineX().Cmp(wx) != 0 || p.GetAffineX_Unsafe().Cmp(wx) != 0 {
+			r.Violation("conversion-wrong-after-the-caller-overwrote-an-earlier-result", d)
+		}
 		cls := "finite"
 		if P.Inf {
 			cls = "inf"
